@@ -273,3 +273,139 @@ func init() {
 			}
 		}})
 }
+
+// ---------------------------------------------------------------------------
+// N2: length-guarded fixed-width reads
+// ---------------------------------------------------------------------------
+
+func isByteSlice(t types.Type) bool {
+	s, ok := t.Underlying().(*types.Slice)
+	if !ok {
+		return false
+	}
+	b, ok := s.Elem().Underlying().(*types.Basic)
+	return ok && b.Kind() == types.Uint8
+}
+
+// lenGuarded: every path to site passes an edge that implies len(slice) >= need.
+func (x *Ctx) lenGuarded(site ssa.Instruction, slice ssa.Value, need int64) bool {
+	fn := site.Parent()
+	cut := map[prog.Edge]bool{}
+	lenOf := VP{"len(input)", func(v ssa.Value) bool {
+		c, ok := prog.Strip(v).(*ssa.Call)
+		if !ok {
+			return false
+		}
+		b, ok := c.Call.Value.(*ssa.Builtin)
+		return ok && b.Name() == "len" && sameAccessPath(c.Call.Args[0], slice)
+	}}
+	anyConst := VP{"constant", func(v ssa.Value) bool { _, ok := prog.IntConst(v); return ok }}
+	for _, b := range fn.Blocks {
+		iff := prog.IfOf(b)
+		if iff == nil {
+			continue
+		}
+		bo, ok := iff.Cond.(*ssa.BinOp)
+		if !ok {
+			continue
+		}
+		r, found := relOnTrue(iff.Cond, lenOf, anyConst, nil)
+		if !found {
+			continue
+		}
+		var c int64
+		if k, isK := prog.IntConst(bo.Y); isK {
+			c = k
+		} else if k, isK := prog.IntConst(bo.X); isK {
+			c = k
+		}
+		lower := func(rel Rel) (int64, bool) { // the lower bound on len implied by (len rel c)
+			switch rel {
+			case GE, EQ:
+				return c, true
+			case GT:
+				return c + 1, true
+			case NE:
+				if c == 0 { // a length is never negative
+					return 1, true
+				}
+			}
+			return 0, false
+		}
+		if lb, ok := lower(r); ok && lb >= need {
+			cut[prog.Edge{From: b, To: b.Succs[0]}] = true
+		}
+		if lb, ok := lower(negRel(r)); ok && lb >= need {
+			cut[prog.Edge{From: b, To: b.Succs[1]}] = true
+		}
+	}
+	return len(cut) > 0 && prog.CutDisconnects(fn, site.Block(), cut)
+}
+
+func init() {
+	register(&Rule{ID: "N2", Min: 8, Text: "length-guarded fixed-width reads: in the value decoders of packages crdt, time, converter and database, every binary.*Endian.UintN(b) and every constant index b[k] on a byte slice that comes from a parameter is reachable only through an edge implying len(b) >= N/8 (resp. > k); comparisons are evaluated numerically, so weakening a bound below the width read is reported",
+		Run: func(x *Ctx) {
+			n := map[string]int{}
+			total := 0
+			for _, fn := range x.P.FuncsIn(crdtPkg, timePkg, convPkg, dbPkg, "pkg/document/yson") {
+				fromParam := func(v ssa.Value) bool {
+					return prog.Reaches(v, func(w ssa.Value) bool { _, ok := w.(*ssa.Parameter); return ok })
+				}
+				for _, b := range fn.Blocks {
+					for _, ins := range b.Instrs {
+						switch t := ins.(type) {
+						case *ssa.Call:
+							o := prog.CallObj(t)
+							if o == nil || o.Pkg() == nil || o.Pkg().Path() != "encoding/binary" {
+								continue
+							}
+							var w int64
+							switch o.Name() {
+							case "Uint16":
+								w = 2
+							case "Uint32":
+								w = 4
+							case "Uint64":
+								w = 8
+							default:
+								continue
+							}
+							arg := t.Call.Args[len(t.Call.Args)-1]
+							if !isByteSlice(arg.Type()) || !fromParam(arg) {
+								continue
+							}
+							// reading from a sub-slice b[i:j] with constant bounds is guarded by construction of the slice expression (it panics on its own) — treat the sliced base
+							base := arg
+							if sl, ok := prog.Strip(arg).(*ssa.Slice); ok {
+								base = sl.X
+								if hi, isK := prog.IntConst(sl.High); isK {
+									w = hi
+								} else if lo, isK := prog.IntConst(sl.Low); isK {
+									w += lo
+								}
+							}
+							total++
+							n[prog.FnName(fn)]++
+							k := fmt.Sprintf("func=%s read=%s#%d", prog.FnName(fn), o.Name(), n[prog.FnName(fn)])
+							x.check(x.lenGuarded(t, base, w), k, x.pos(t), fmt.Sprintf("guarded by len >= %d", w),
+								fmt.Sprintf("a %d-byte read is reachable without a test implying len(input) >= %d: truncated bytes panic the decoder", w, w))
+						case *ssa.IndexAddr:
+							if !isByteSlice(t.X.Type()) || !fromParam(t.X) {
+								continue
+							}
+							kx, isK := prog.IntConst(t.Index)
+							if !isK {
+								continue
+							}
+							total++
+							n[prog.FnName(fn)]++
+							k := fmt.Sprintf("func=%s index=%d#%d", prog.FnName(fn), kx, n[prog.FnName(fn)])
+							x.check(x.lenGuarded(t, t.X, kx+1), k, x.pos(t), fmt.Sprintf("guarded by len > %d", kx),
+								fmt.Sprintf("index %d is read without a test implying len(input) > %d", kx, kx))
+						}
+					}
+				}
+			}
+			x.C.Count("fixed-width reads on parameter-derived byte slices", total)
+		}})
+}
